@@ -264,9 +264,18 @@ func (m *Machine) Explore(pkgPath, fnName string, solver *smt.Solver, o ExploreO
 }
 
 func (m *Machine) runPath(fn *ssa.Function) {
+	sched = newScheduler()
 	defer func() {
 		r := recover()
+		sched.teardown()
 		if r == nil {
+			return
+		}
+		if dl, ok := r.(deadlockPanic); ok {
+			site := "deadlock"
+			if !ex.violation("deadlock", site, dl.msg) {
+				ex.Stats.PathsPruned++
+			}
 			return
 		}
 		switch p := r.(type) {
